@@ -330,6 +330,8 @@ def sample_payload(typ, key, kind, rnd=None, depth=0):
     if kind == "repeated":
         return "BANDS=1,2,3" if key != "include" else "other.map"
     if kind == "projection":
+        if rnd and rnd.random() < 0.3:
+            return ["proj=longlat", "'init=epsg:4326'", "no_defs"]       # a string that itself carries quotes
         return ["init=epsg:4326"] if not rnd or rnd.random() < 0.5 else ["proj=utm", "zone=11", "datum=WGS84"]
     if kind in ("points", "pattern"):
         return [(1, 2), (3.5, 4)] if kind == "points" else [(5, 5), (2.5, 3)]
